@@ -361,7 +361,12 @@ def dpss(N, NW=None, k=None):
                 tapsum[i] *= -1
                 tapers[:, i] *= -1
         else:
-            if tapers[0, i] < 0:
+            # the very first samples of a long, wide-band taper are smaller than
+            # the round-off of the eigen-solver: read the sign of the leading lobe
+            # from the first sample that carries a noticeable share of the energy
+            w = tapers[:, i]
+            lobe = w[w * w > max(1e-7, 1. / N) * np.sum(w * w)]
+            if len(lobe) > 0 and lobe[0] < 0:
                 tapsum[i] *= -1
                 tapers[:, i] *= -1
 
